@@ -292,6 +292,10 @@ PURGE_SCENARIOS = {
     'restore-tree':  ('restore', ['1'], ['e2']),
     'restore-two':   ('restore', ['3,0'], ['e1', 'e4']),
 }
+# --overwrite with something living at the original locations of e1 (a file), e3 (a dangling link) and e4 (a file, other volume)
+PURGE_SCENARIOS['restore-overwrite'] = ('restore', ['0-3', '--overwrite'], ['e1', 'e2', 'e3', 'e4'])
+PURGE_SCENARIOS['restore-overwrite-one'] = ('restore', ['0', '--overwrite'], ['e1'])
+OCCUPIED = {'restore-overwrite': ['e1', 'e3', 'e4'], 'restore-overwrite-one': ['e1', 'e3', 'e4']}
 # the same with e3 a symlink to an EXISTING directory outside the trash (it must be unlinked, never followed or "rmtree"d)
 for _k in ('empty-all', 'rm-all', 'restore-all'):
     PURGE_SCENARIOS[_k + '@dirlink'] = PURGE_SCENARIOS[_k]
@@ -301,8 +305,10 @@ class PurgeBox(object):
     """home trash with four entries: e1 file, e2 deep tree (restores across volumes), e3 link, e4 file on the other
     volume; two orphans (a file and a tree)"""
 
-    def __init__(self, uid=1000, link='dangling'):
+    def __init__(self, uid=1000, link='dangling', occupied=()):
         self.base = _tempfile.mkdtemp(prefix='vp-', dir=_world.SHM)
+        self.occupied = list(occupied)
+        self.occ_dig = {}
         self.root = os.path.join(self.base, 'w')
         self.uid = uid
         self.home = os.path.join(self.root, 'home', 'u')
@@ -345,6 +351,15 @@ class PurgeBox(object):
             if e.startswith('e'):
                 with open(os.path.join(self.tdir, 'info', 'slot-' + e + '.trashinfo'), 'wb') as fh:
                     fh.write(_world.format_info(os.fsencode(self.dest[e]), self.dates[e]))
+            if e in self.occupied:
+                d = self.dest[e]
+                os.makedirs(os.path.dirname(d), exist_ok=True)
+                if e == 'e3':
+                    os.symlink('/nonexistent/occupant-of-e3', d)
+                else:
+                    with open(d, 'w') as fh:
+                        fh.write('occupant of %s' % e)
+                self.occ_dig[e] = _world.digest_of_sub(_world.snapshot_sub(os.fsencode(d)))
 
     def destroy(self):
         _shutil.rmtree(self.base, ignore_errors=True)
@@ -362,7 +377,7 @@ class PurgeBox(object):
 
     def run(self, cmd, args, **shimkw):
         if cmd == 'restore':
-            return runner.run('trash-restore', ['/'], os.path.join(self.root, 'cwd'), self.env(), stdin=args[0].encode() + b'\n',
+            return runner.run('trash-restore', list(args[1:]) + ['/'], os.path.join(self.root, 'cwd'), self.env(), stdin=args[0].encode() + b'\n',
                               shim_cfg=self.shim(**shimkw), timeout=20)
         return runner.run('trash-' + cmd, list(args), os.path.join(self.root, 'cwd'), self.env(), shim_cfg=self.shim(**shimkw), timeout=20)
 
@@ -382,7 +397,8 @@ class PurgeBox(object):
                 info[e] = 'present' if os.path.lexists(os.path.join(self.tdir, 'info', 'slot-' + e + '.trashinfo')) else 'gone'
                 d = os.fsencode(self.dest[e])
                 if os.path.lexists(d):
-                    dest[e] = 'whole' if _world.digest_of_sub(_world.snapshot_sub(d)) == self.dig[e] else 'partial'
+                    dg = _world.digest_of_sub(_world.snapshot_sub(d))
+                    dest[e] = 'whole' if dg == self.dig[e] else 'other' if dg == self.occ_dig.get(e) else 'partial'
                 else:
                     dest[e] = 'absent'
         return info, pay, dest
@@ -391,7 +407,7 @@ class PurgeBox(object):
 def purge_baseline(scen):
     runner.prepare()
     cmd, args, sel = PURGE_SCENARIOS[scen]
-    box = PurgeBox(link='dir' if scen.endswith('@dirlink') else 'dangling')
+    box = PurgeBox(link='dir' if scen.endswith('@dirlink') else 'dangling', occupied=OCCUPIED.get(scen, ()))
     try:
         res = box.run(cmd, args)
         ops = [e for e in res['trace'] if 'seq' in e]
@@ -405,13 +421,14 @@ def run_purge_crash(args):
     scen, k = args
     runner.prepare()
     cmd, argv, sel = PURGE_SCENARIOS[scen]
-    box = PurgeBox(link='dir' if scen.endswith('@dirlink') else 'dangling')
+    box = PurgeBox(link='dir' if scen.endswith('@dirlink') else 'dangling', occupied=OCCUPIED.get(scen, ()))
     try:
         res = box.run(cmd, argv, crash_at=k)
         killed = res['exit'] == 137
         info, pay, dest = box.project()
         last = [e for e in res['trace'] if 'seq' in e][-1:] or [{}]
-        o1 = {'info': info, 'pay': pay, 'dest': dest, 'done': not killed, 'cmd': cmd, 'selected': sel, 'purged': False}
+        o1 = {'info': info, 'pay': pay, 'dest': dest, 'done': not killed, 'cmd': cmd, 'selected': sel, 'purged': False,
+              'occupied': OCCUPIED.get(scen, [])}
         # recovery: empty / rm are simply run again; what a killed restore leaves in the trash must be purgeable
         if cmd == 'restore':
             r2 = box.run('empty', [])
@@ -420,7 +437,8 @@ def run_purge_crash(args):
         info2, pay2, dest2 = box.project()
         o2 = {'info': info2, 'pay': pay2, 'dest': dest2, 'done': cmd != 'restore',
               'cmd': cmd if cmd != 'restore' else 'recovery-purge',
-              'selected': sel if cmd != 'restore' else ['e1', 'e2', 'e3', 'e4'], 'purged': cmd == 'restore'}
+              'selected': sel if cmd != 'restore' else ['e1', 'e2', 'e3', 'e4'], 'purged': cmd == 'restore',
+              'occupied': OCCUPIED.get(scen, [])}
         if cmd == 'restore':
             # destinations reached before the kill must survive the recovery purge untouched
             o2['dest_kept'] = all(dest2[e] == dest[e] for e in dest)
@@ -436,7 +454,7 @@ def purge_state_trace(args):
     scen, permute_seed = args
     runner.prepare()
     cmd, argv, sel = PURGE_SCENARIOS[scen]
-    box = PurgeBox(link='dir' if scen.endswith('@dirlink') else 'dangling')
+    box = PurgeBox(link='dir' if scen.endswith('@dirlink') else 'dangling', occupied=OCCUPIED.get(scen, ()))
     try:
         import select as _select
         from harness import oplevel
@@ -444,7 +462,7 @@ def purge_state_trace(args):
         t_r, t_w = os.pipe()
         cfg = box.shim(pname='p1', lockstep={'ann': a_w, 'tok': t_r, 'shared': []}, permute=bool(permute_seed), seed=permute_seed)
         if cmd == 'restore':
-            h = runner.spawn('trash-restore', ['/'], os.path.join(box.root, 'cwd'), box.env(), stdin=argv[0].encode() + b'\n', shim_cfg=cfg)
+            h = runner.spawn('trash-restore', list(argv[1:]) + ['/'], os.path.join(box.root, 'cwd'), box.env(), stdin=argv[0].encode() + b'\n', shim_cfg=cfg)
         else:
             h = runner.spawn('trash-' + cmd, list(argv), os.path.join(box.root, 'cwd'), box.env(), shim_cfg=cfg)
         os.close(a_w)
